@@ -8,7 +8,7 @@ Oracle: an independent source resolver written from the property text.
 import hashlib
 import os
 
-from clastic import Application, Route
+from clastic import Application, Route, Response
 from clastic.decorators import clastic_decorator
 from clastic.route import BoundRoute
 from clastic.application import DispatchState
@@ -104,6 +104,11 @@ def gen_config(rng):
             t = 'multi'
         utypes.append([u, t])
     cfgd = {'url': utypes, 'resources': list(res), 'route_resources': list(rres), 'mws': mws, 'ep': ep, 'rn': rn}
+    # a sibling route BEFORE the main one whose pattern matches the same paths but admits only POST; its URL
+    # bindings are named like the main route's route-level resources (legal: those are per route)
+    if utypes and rng.random() < 0.6:
+        dn = list(rres) + ['dq%d' % i for i in range(len(utypes))]
+        cfgd['decoy'] = [[dn[i], t] for i, (u, t) in enumerate(utypes)]
     if rng.random() < 0.5:
         # a custom error renderer: every parameter (also defaulted ones) must be a built-in, _error or a resource
         av = sorted(base_app | set(['_error']))
@@ -188,7 +193,11 @@ def build(cfg, tag):
         segs.append({'str': '<%s>' % u, 'int': '<%s:int>' % u, 'multi': '<%s+>' % u}[t])
     pattern = '/' + '/'.join(segs)
     eh = make_error_handler(cfg['re']) if cfg.get('re') else None
-    app = Application([Route(pattern, ep, rn, middlewares=objs['route'], resources=route_resources)],
+    first = []
+    if cfg.get('decoy'):
+        dsegs = ['x'] + [{'str': '<%s>' % u, 'int': '<%s:int>' % u, 'multi': '<%s+>' % u}[t] for u, t in cfg['decoy']]
+        first.append(Route('/' + '/'.join(dsegs), lambda: Response('decoy'), methods=['POST']))
+    app = Application(first + [Route(pattern, ep, rn, middlewares=objs['route'], resources=route_resources)],
                       resources=resources, middlewares=objs['app'], error_handler=eh)
     allres = dict(resources)
     allres.update(route_resources)
@@ -288,7 +297,7 @@ class C02(Check):
                   'independent resolver as oracle. The configuration space is a sampled input space; what simulation adds '
                   'is the history, interleaving and hash-seed dimensions the property names.')
     level_note = 'Trusted: the resolver (~40 lines from the property text), generator validity rules V1-V3.'
-    required_probes = ('positional-next-multi', 'render-error-injected', 'optional-got-offered-value', 'kwonly-got-offered-value', 'null-route-defaults', 'concurrent-batch',
+    required_probes = ('decoy-route-binding-named-like-resource', 'positional-next-multi', 'render-error-injected', 'optional-got-offered-value', 'kwonly-got-offered-value', 'null-route-defaults', 'concurrent-batch',
                        'kind-lambda', 'kind-callable', 'kind-classmethod', 'kind-decorated', 'multi-url-value')
 
     def generate(self, seed, tier):
@@ -328,6 +337,8 @@ class C02(Check):
             return res
         for kind in ('ep', 'rn'):
             res.probe('kind-' + cfg[kind]['kind'])
+        if cfg.get('decoy') and cfg.get('route_resources'):
+            res.probe('decoy-route-binding-named-like-resource')
         RT.reset({})
         for m in cfg['mws']:
             for ph, f in m['funcs'].items():
